@@ -37,9 +37,9 @@ PassFileKey(pw, salt) == Scrypt(pw, salt, ScryptN, ScryptR, ScryptP, 32)
 PassAadPrefix      == PassMagic
 
 \* ---- keyring encodings ----
-LockedKey(sk, pw, salt) ==
-  B64(Cat(<< LockMagic, salt,
-             Aead(Scrypt(pw, salt, ScryptN, ScryptR, ScryptP, 32), Zeros(12), LockMagic, sk) >>))
+LockKdf(pw, salt) == Scrypt(pw, salt, ScryptN, ScryptR, ScryptP, 32)
+LockedKeyUnder(key, sk, salt) == B64(Cat(<< LockMagic, salt, Aead(key, Zeros(12), LockMagic, sk) >>))
+LockedKey(sk, pw, salt) == LockedKeyUnder(LockKdf(pw, salt), sk, salt)
 EncodedPub(pk) == B64(Cat(<<pk, Slice(Sha(pk), 0, 4)>>))
 
 KeyBlock(name, pk, lockedSk) ==
